@@ -225,11 +225,11 @@ Proof. reflexivity. Qed.
 From OL Require Import Sexp PyAst Namespace Lower.
 
 Lemma lower_import_alias g name x : n_kind g = NGlobal ->
-  lower_import g [(name, Some x)] = inl [NamedExpr x (call (Attribute (Name "importlib") "import_module") [cstr name])].
+  lower_import g [(name, Some x)] = inl [NamedExpr x (call (Attribute (Name "__ol_importlib") "import_module") [cstr name])].
 Proof. intros H. unfold lower_import. cbn [rmap snd fst]. unfold get_assign. rewrite H. reflexivity. Qed.
 
 Lemma lower_import_plain g name : n_kind g = NGlobal -> has_dot name = false ->
-  lower_import g [(name, None)] = inl [NamedExpr name (call (Attribute (Name "importlib") "import_module") [cstr name])].
+  lower_import g [(name, None)] = inl [NamedExpr name (call (Attribute (Name "__ol_importlib") "import_module") [cstr name])].
 Proof. intros H Hd. unfold lower_import. cbn [rmap snd fst]. rewrite Hd. unfold get_assign. rewrite H. reflexivity. Qed.
 
 Lemma lower_import_dotted g name : n_kind g = NGlobal -> has_dot name = true ->
